@@ -67,7 +67,7 @@ def canon_guard(facts, a, summ):
         fp = models.field_path(a[2][0])
         if fp == "parts.qualifiers":
             return "quals_nonempty"
-    if a[0] == "is" and a[2] == "Ok?":
+    if a[0] == "is" and a[2] in ("Ok?", "Ok"):   # `?`, or an explicit `match r { Ok(()) => {}, Err(e) => return Err(e) }`
         x = a[1]
         if x[0] == "call" and ("write_fmt" in x[1] or "write_str" in x[1] or "write_char" in x[1] or x[1].endswith(" as std::fmt::Display>::fmt") or x[1] == "std::fmt::Display::fmt"):
             return None  # an earlier write succeeded
